@@ -102,12 +102,25 @@ class ObjV:
         return ObjV(self.cls, self.fields)
 
 
+class AbsV:
+    """opaque mutable external object (e.g. the attribute list returned by termios.tcgetattr): only its identity-as-a-value
+    `term` (an Int standing for its current contents) is tracked; item reads give children, any item write gives the object
+    (and its parents) a fresh contents term"""
+    __slots__ = ("term", "parent", "kind")
+
+    def __init__(self, term, parent=None, kind="abs"):
+        self.term, self.parent, self.kind = term, parent, kind
+
+    def clone(self):
+        return AbsV(self.term, self.parent, self.kind)
+
+
 class FuncV:
     """Closure over a lambda / nested def of the real source."""
-    __slots__ = ("node", "env", "name")
+    __slots__ = ("node", "env", "name", "module")
 
-    def __init__(self, node, env, name="<lambda>"):
-        self.node, self.env, self.name = node, env, name
+    def __init__(self, node, env, name="<lambda>", module=None):
+        self.node, self.env, self.name, self.module = node, env, name, module
 
 
 class Builtin:
